@@ -59,6 +59,8 @@ def units(tier, seed):
     u.append(dict(path="generic_runs"))
     # traffic-light estimates stamped 50 ms after the ground truth they are evaluated against (the nearest annotated sample)
     u.append(dict(path="tlr_dt"))
+    # ground-truth lights labelled false_positive among the others (they agree with no estimate's label; only an equal uuid pairs them)
+    u.append(dict(path="tlr_fp"))
     # the ground-truth list holds the very same object instances as the estimate list, in another order (a result evaluated against itself)
     u.append(dict(path="tlr_shared"))
     # every ordered pair of the light states of the golden table, one light per side
@@ -103,6 +105,15 @@ def run_unit(unit, acc):
             for Gs in ES:
                 for first in (False, True):
                     check_case(dict(path="tlr", E=[list(x) for x in E], G=[list(x) for x in Gs], first=first, dt=50000), acc)
+        return
+    if unit["path"] == "tlr_fp":
+        ES = list(_sets(2, TLR_LABELS[:2], CAMS_TLR[:1]))
+        GS = [g for g in _sets(2, TLR_LABELS[:2] + ["FP"], CAMS_TLR[:1]) if any(x[2] == "FP" for x in g)]
+        for E in ES:
+            for Gs in GS:
+                for first in (False, True):
+                    for rev in (False, True):
+                        check_case(dict(path="tlr", E=[list(x) for x in E], G=[list(x) for x in (list(reversed(Gs)) if rev else Gs)], first=first), acc)
         return
     if unit["path"] == "tlr_shared":
         for E in _sets(3, TLR_LABELS, CAMS_TLR[:1]):
@@ -338,9 +349,14 @@ def check_case(case, acc):
                 bad("generic:estimate-lost", "generic id path: every estimate must appear in exactly one result; got %s of %d" % (sorted(pe), len(EE)))
         label_enum = TrafficLightLabel if path == "tlr" else AutowareLabel
         names = TLR_LABELS if path == "tlr" else GEN_LABELS
-        _metrics_check(case, R, eo, go, label_enum, names, acc, bad)
-        if path == "tlr":
-            _metrics_check(case, R, eo, go, label_enum, ["GREEN", "RED"], acc, bad)
+        if any(x[2] == "FP" for x in EE + GG):
+            # how a classification score counts a pair with a false_positive-labelled ground truth (a label of the FP-validation tasks) is
+            # not specified; for these sets the pairing rule is checked, the scores are not
+            acc.note("scores-not-checked:fp-labelled-ground-truth")
+        else:
+            _metrics_check(case, R, eo, go, label_enum, names, acc, bad)
+            if path == "tlr":
+                _metrics_check(case, R, eo, go, label_enum, ["GREEN", "RED"], acc, bad)
         if order == 0:
             cross = any(e[0] == g[0] and e[1] == g[1] and e[2] != g[2] for e in EE for g in GG) or any(e[2] == g[2] and e[1] == g[1] and e[0] != g[0] for e in EE for g in GG)
             acc.state((path, first, tuple(sorted((c, l) for _, c, l in EE)), tuple(sorted((c, l) for _, c, l in GG)), tuple(sorted(rel)), len(R) - len(pg)),
